@@ -463,15 +463,32 @@ fn dec_cases(run: &mut Run, rng: &mut Rng, n: usize) {
 // ---------------------------------------------------------------------------------------------
 // `conc` stream: concurrent senders on a multi-thread runtime
 
-fn conc_case(run: &mut Run, tasks: usize, sends: usize, big: bool, close: bool) {
-    let text = format!("conc {tasks} {sends} {} {}", big as u8, close as u8);
-    let rt = tokio::runtime::Builder::new_multi_thread().worker_threads(4).enable_all().build().unwrap();
+fn conc_case(run: &mut Run, tasks: usize, sends: usize, big: bool, close: bool) { conc_case_ext(run, tasks, sends, big, close, false, false) }
+
+/// `lineup`: the `send_record` probe (point 4, between the epoch load and the sequence-number allocation) makes all
+/// sender tasks wait for each other there, so they allocate at the same instant over and over: an allocation that is
+/// not one atomic step collides almost surely instead of by luck.  `server`: the sending endpoint is the server.
+fn conc_case_ext(run: &mut Run, tasks: usize, sends: usize, big: bool, close: bool, lineup: bool, server: bool) {
+    let text = format!("conc {tasks} {sends} {} {}{}{}", big as u8, close as u8, if lineup { " lineup" } else { "" }, if server { " server" } else { "" });
+    let rt = tokio::runtime::Builder::new_multi_thread().worker_threads(if lineup { tasks.max(4) + 1 } else { 4 }).enable_all().build().unwrap();
+    if lineup {
+        let arrived = std::sync::Arc::new(std::sync::atomic::AtomicUsize::new(0));
+        let n = tasks;
+        rustrtc::verif_hooks::dtls::set_publish_probe(Some(std::sync::Arc::new(move |_inst, point| {
+            if point != 4 { return; }
+            let ticket = arrived.fetch_add(1, std::sync::atomic::Ordering::SeqCst);
+            let target = (ticket / n + 1) * n;
+            let t0 = std::time::Instant::now();
+            while arrived.load(std::sync::atomic::Ordering::SeqCst) < target && t0.elapsed() < std::time::Duration::from_millis(3) { std::hint::spin_loop(); }
+        })));
+    }
     let res = rt.block_on(async move {
         let (cc, sc) = certs();
         let mut pair = Pair::connect(cc, sc, None, None).await?;
-        let keys = pair.c.keys()?;
+        let ep = if server { &mut pair.s } else { &mut pair.c };
+        let keys = ep.keys()?;
         // drain concurrently so the sink's socket buffer never overflows
-        let sink = pair.c.sink.try_clone().unwrap();
+        let sink = ep.sink.try_clone().unwrap();
         sink.set_nonblocking(false).unwrap();
         sink.set_read_timeout(Some(std::time::Duration::from_millis(300))).unwrap();
         let stop = std::sync::Arc::new(std::sync::atomic::AtomicBool::new(false));
@@ -490,7 +507,7 @@ fn conc_case(run: &mut Run, tasks: usize, sends: usize, big: bool, close: bool) 
         let progress = std::sync::Arc::new(std::sync::atomic::AtomicUsize::new(0));
         let mut expected_records = 0usize;
         for t in 0..tasks {
-            let d = pair.c.dtls.clone();
+            let d = ep.dtls.clone();
             let len = if big && t % 2 == 0 { 2500 } else { 40 + t };
             expected_records += sends * ((len + 1199) / 1200);
             let prog = progress.clone();
@@ -502,16 +519,17 @@ fn conc_case(run: &mut Run, tasks: usize, sends: usize, big: bool, close: bool) 
         // let the senders get going: close() must race them, not precede them
         if close && tasks > 1 { while progress.load(std::sync::atomic::Ordering::SeqCst) < (tasks * sends) / 3 { tokio::task::yield_now().await; } }
         // close() while the senders are still running: the alert allocates its sequence number concurrently
-        if close { pair.c.dtls.close(); pair.c.poll_quiesce().await; }
+        if close { ep.dtls.close(); ep.poll_quiesce().await; }
         for h in hs { let _ = h.await; }
         tokio::time::sleep(std::time::Duration::from_millis(50)).await;
         stop.store(true, std::sync::atomic::Ordering::SeqCst);
         let got = drainer.join().unwrap();
-        pair.c.sink.set_nonblocking(true).unwrap();
+        ep.sink.set_nonblocking(true).unwrap();
         Some((got, keys, expected_records))
     });
+    if lineup { rustrtc::verif_hooks::dtls::set_publish_probe(None); }
     let Some((got, keys, expected)) = res else { run.count("handshake_retry"); return; };
-    let (k, iv) = write_dir(&keys, true);
+    let (k, iv) = write_dir(&keys, !server);
     let mut app: Vec<(u16, u64)> = vec![];
     let mut alert: Option<(u16, u64)> = None;
     let mut seen = BTreeSet::new();
@@ -706,6 +724,8 @@ pub fn run(args: &Args) {
              (16, 200, true, true), (12, 150, false, true), (5, 200, true, true), (9, 33, false, false), (16, 100, false, true), (7, 77, true, true)]
     } else { vec![(1, 1, false, true), (4, 20, true, true), (8, 60, false, true), (8, 60, false, true), (12, 40, false, true), (16, 10, false, false)] };
     for (t, s, b, c) in conc { conc_case(&mut run, t, s, b, c); }
+    // senders lined up at the allocation point (both roles)
+    for (t, n, srv) in if args.tier_thorough { vec![(8, 200, false), (8, 200, true), (16, 100, false), (3, 300, true)] } else { vec![(8, 60, false), (6, 60, true)] } { conc_case_ext(&mut run, t, n, false, false, true, srv); }
     run.notes.insert("scope".into(), serde_json::json!("sessions = fresh real DtlsTransport pair, connected through the harness proxy, then injections at one endpoint; oracle table = AES-128-GCM results computed by the harness from RFC nonce/AAD"));
     run.finish();
 }
